@@ -460,6 +460,16 @@ var invalidCatalogue = []entry{
 		pos := rapid.IntRange(0, firstAny(l.EKUs)).Draw(t, "bad-eku-pos")
 		l.EKUs = insertAt(l.EKUs, pos, rapid.SampledFrom(unknownEKUs).Draw(t, "bad-eku"))
 	}},
+	{name: "eku-unknown-before-any", scope: "log", targets: allLogs, apply: func(t *rapid.T, c *ValCase, i int) {
+		// an unknown name is not excused by an "Any" that FOLLOWS it: make sure one does (the list may
+		// already hold one; otherwise it is added somewhere behind the unknown name)
+		l := &c.Logs[i]
+		pos := rapid.IntRange(0, firstAny(l.EKUs)).Draw(t, "bad-eku-pos")
+		l.EKUs = insertAt(l.EKUs, pos, rapid.SampledFrom(unknownEKUs).Draw(t, "bad-eku"))
+		if firstAny(l.EKUs) == len(l.EKUs) {
+			l.EKUs = insertAt(l.EKUs, rapid.IntRange(pos+1, len(l.EKUs)).Draw(t, "any-after-pos"), "Any")
+		}
+	}},
 	{name: "conn-empty", scope: "log", targets: allLogs, apply: func(t *rapid.T, c *ValCase, i int) {
 		c.Logs[i].CTFEStore, c.Logs[i].Conn = true, ""
 	}},
